@@ -79,6 +79,8 @@ Definition c18_monitor (c : dijk_case) : bool :=
 
 Definition check_dijk (monitor : bool) (c : dijk_case) : Z :=
   let g := build_graph (dc_n c) (dc_edges c) in
+  if monitor && negb (dc_panic c) && negb (c18_monitor c) then 60 else
+  if monitor && dc_panic c then 61 else
   match dijkstra_t g (dc_src c) (dc_tape c) with
   | Ok (d, p, _) =>
       if dc_panic c then 1
@@ -88,7 +90,6 @@ Definition check_dijk (monitor : bool) (c : dijk_case) : Z :=
                                        | Ok path => eqb path (snd vp)
                                        | _ => false
                                        end) (combine (zrange (dc_n c)) (dc_paths c))) then 4
-      else if monitor && negb (c18_monitor c) then 16
       else 0
   | Panic _ => if dc_panic c then 0 else 5
   | TapeErr _ => 6
@@ -158,13 +159,14 @@ Fixpoint hrun_upto (s : hstate Z Z) (ops : list (gop Z Z)) (i : Z) : Z + hstate 
   end.
 
 Definition check_hist (c : hist_case) : Z :=
+  if negb (hc_panic_at c =? -1) then 61 (* the implementation panicked *) else
+  if negb (forallb c19_monitor (hc_obs c)) then 60 else
   match hrun_upto h0 (hc_ops c) 0 with
   | inl i => if hc_panic_at c =? i then 0 else 1
   | inr s =>
       if negb (hc_panic_at c =? -1) then 2
       else if negb (Nat.eqb (length (handles s)) (length (hc_obs c))) then 3
       else if negb (forallb (obs_ok s (hc_nkeys c)) (hc_obs c)) then 4
-      else if negb (forallb c19_monitor (hc_obs c)) then 16
       else 0
   end.
 Definition check_hist_all := run_checks check_hist.
@@ -282,13 +284,14 @@ Definition check_trav (c : trav_case) : Z :=
                            end
                       else 30
                     end in
-  if negb (r_dfs =? 0) then r_dfs
-  else if negb (r_kahn =? 0) then r_kahn
-  else if negb (r_scc =? 0) then r_scc
-  else if negb (r_tsp =? 0) then r_tsp
-  else if negb (c20_dfs_monitor c) then 64
+  if negb (c20_dfs_monitor c) then 64
   else if negb (c20_kahn_monitor c) then 65
   else if negb (c20_scc_monitor c) then 66
   else if negb (c20_tsp_monitor c) then 67
+  else if tc_dfs_panic c || tc_scc_panic c then 61
+  else if negb (r_dfs =? 0) then r_dfs
+  else if negb (r_kahn =? 0) then r_kahn
+  else if negb (r_scc =? 0) then r_scc
+  else if negb (r_tsp =? 0) then r_tsp
   else 0.
 Definition check_trav_all := run_checks check_trav.
